@@ -403,57 +403,5 @@ def path_count_range(b, weight, start=0, targets=None):
 
 
 def reach_feasible(b, start, avoid=(), known=None):
-    """Blocks reachable from `start` when boolean switches whose discriminant is a constant *on the path taken* follow only the feasible
-    edge (constants assigned on the way: `x = const`, `y = move x`, `z = Not(x)`). Path-sensitive only for such locals; everything else
-    is explored on both edges. Used to see through `if !helper()` after the helper's `return false` was inlined."""
-    succ = b.succ_map()
-    avoid = set(avoid)
-    seen = set()
-    out = set()
-    stack = [(start, tuple(sorted((known or {}).items())))]
-    steps = 0
-    while stack and steps < 20000:
-        steps += 1
-        x, envt = stack.pop()
-        if x in avoid or (x, envt) in seen:
-            continue
-        seen.add((x, envt))
-        out.add(x)
-        env = dict(envt)
-        for st in b.blocks[x]["stmts"]:
-            if st["k"] != "assign" or st["pl"]["p"]:
-                if st["k"] == "assign" and st["pl"]["p"]:
-                    env.pop(st["pl"]["l"], None)
-                continue
-            l = st["pl"]["l"]
-            rv = st["rv"]
-            val = None
-            if rv["k"] == "use":
-                o = rv["op"]
-                if o["k"] == "const" and o["const"].get("v") in ("true", "false"):
-                    val = (o["const"]["v"] == "true")
-                elif o["k"] in ("copy", "move") and not o["pl"]["p"] and o["pl"]["l"] in env:
-                    val = env[o["pl"]["l"]]
-            elif rv["k"] == "un" and rv["op"] == "Not" and rv["a"]["k"] in ("copy", "move") and not rv["a"]["pl"]["p"] and rv["a"]["pl"]["l"] in env:
-                val = not env[rv["a"]["pl"]["l"]]
-            if val is None:
-                env.pop(l, None)
-            else:
-                env[l] = val
-        t = b.blocks[x]["term"]
-        if t["k"] == "call":
-            env.pop(t["dest"]["l"], None)
-        nxt = succ[x]
-        if t["k"] == "switch" and t.get("discr_ty") == "bool" and t["discr"]["k"] in ("copy", "move") and not t["discr"]["pl"]["p"] and t["discr"]["pl"]["l"] in env:
-            v = env[t["discr"]["pl"]["l"]]
-            tgt = None
-            for a in t["arms"]:
-                if (a["val"] != 0) == v:
-                    tgt = a["target"]
-            if tgt is None:
-                tgt = t["otherwise"]
-            nxt = [tgt]
-        et = tuple(sorted(env.items()))
-        for y in nxt:
-            stack.append((y, et))
-    return out
+    """See Body.reach_feasible."""
+    return b.reach_feasible(start, avoid, known)
